@@ -147,6 +147,14 @@ def run(tier, rep):
         out_s = explore_stateful_bfs(pool, l5, JUDGE, cap=12000 if tier == "quick" else 60000)
         _report(rep, "G1_stateful_L5_all_schedules", out_s, "unbounded (state-pruned)")
         rep.section("G1_stateful_L5_all_schedules", abstract_states=sum(st["abstract_states"] for st in out_s.values()))
+        # L5 at line granularity under the mirror-image base policy "workers first" (the user thread only runs when no
+        # worker can): one preemption of the user inside stop()/reset() then lets an *idle* worker run a whole task before
+        # the user's next line. Only reset-driven histories: under run() the supervisor free-runs and workers-first would
+        # starve the user by construction.
+        wfh = [[["reset"], ["stop"], ["reset"], ["stop"]], [["reset"], ["step"], ["stop"], ["reset"], ["step"], ["stop"]]]
+        wf = {("L5", H.hist_name(h), "wf", "SIM", "G2"): dict(spec=H.L5(), user=h, policy="wf", clock="SIM", rtf=0, gran="G2") for h in wfh}
+        out_wf = explore_many(pool, wf, 1, JUDGE)
+        _report(rep, "G2_line_level_L5_workers_first", out_wf, 1)
         if tier == "thorough":  # the same job without relying on the abstraction: deviation-bounded
             l0_run = {k: v for k, v in l0.items() if k[1] == "r."}
             out_g = explore_many(pool, l0_run, 3, JUDGE)
@@ -164,7 +172,7 @@ def run(tier, rep):
     some = list(deep.items())[:2]
     for k, j in some:
         rep.sample(dict(job=":".join(map(str, k)), user=j["user"], spec=j["spec"]))
-    rep.section("family", harnesses=sorted({k[0] for k in list(deep) + list(wide)}), policies=["prio(user-first)", "rr", "rev"], clocks=["SIM rtf=0", "SIM rtf=8 (throttled, virtual sleeps)", "WALL (virtual time)"],
+    rep.section("family", harnesses=sorted({k[0] for k in list(deep) + list(wide)}), policies=["prio(user-first)", "rr", "rev", "wf(workers-first, L5 only)"], clocks=["SIM rtf=0", "SIM rtf=8 (throttled, virtual sleeps)", "WALL (virtual time)"],
                 histories_wide=len({k[1] for k in wide}), histories_deep=len({k[1] for k in deep}), quick_slice="wide histories rotated by VERIF_SEED on the non-core harnesses" if tier == "quick" else "full")
     if tier == "quick":
         rep.not_exhaustive("quick tier: d<=1 on core harnesses, d=0 elsewhere, rotated history slice")
